@@ -154,7 +154,7 @@ Definition rank_order (values : list Z) : arr * list Z :=
 
 Record prep : Type := mkprep {
   p_H : Z; p_W : Z; p_p0 : Z; p_p1 : Z; p_PW : Z; p_S : Z;
-  p_strides : list Z; p_cur : Z; p_st : st; p_vmap : arr }.
+  p_strides : list Z; p_cur : Z; p_st : st; p_vmap : arr; p_K : Z }.
 
 Definition all_le (a b : list (list Z)) : bool :=
   forallb (fun rr => forallb (fun xy => fst xy <=? snd xy) (combine (fst rr) (snd rr))) (combine a b).
@@ -184,7 +184,7 @@ Definition prepare (image mask : list (list Z)) (fp : list (list bool)) : prep :
   let pn := link_pairs order (minus1, minus1) in
   let rk := rank_order values in
   mkprep H W p0 p1 PW S strides (hd (-1) order)
-         (mkst (fst rk) (fst pn) (snd pn) 0) (of_list (snd rk)).
+         (mkst (fst rk) (fst pn) (snd pn) 0) (of_list (snd rk)) (zlen (snd rk)).
 
 (* value_map[values[:image_stride]] reshaped, inside slices *)
 Definition finish (p : prep) (s : st) : res (list (list Z)) :=
